@@ -110,7 +110,7 @@ func c04ColorFunc(r *h.RNG) string {
 			b = c04Chan(r, !pct)
 		}
 	} else {
-		a = r.Pick([]string{"0", "120", "240", "360", "30", "60", "90", "180", "210", "300", "-120", "480", "45", "1", "359", "12.5", "0.0", "120deg", "0.5turn"})
+		a = r.Pick([]string{"0", "120", "240", "360", "30", "60", "90", "180", "210", "300", "-120", "480", "45", "1", "359", "12.5", "0.0", "120deg", "0.5turn", "-700", "-400", "-361", "-360", "-1", "721", "800", "1085", "-1000"})
 		b = r.Pick([]string{"0%", "100%", "50%", "25%", "75%", "10%", "33%", "120%"})
 		cc = r.Pick([]string{"0%", "100%", "50%", "25%", "75%", "10%", "90%", "33%"})
 		if r.Chance(4) {
@@ -421,7 +421,7 @@ func c04Shapes() []c04Shape {
 				if r.Chance(8) {
 					return r.Pick([]string{"none", "initial", "inherit", "NONE"})
 				}
-				ls := []string{"0", "0px", "1px", "2px", "-1px", "0em", ".5em", "0.0px", "calc(1px + 1px)", "var(--s)", "3px"}
+				ls := []string{"0", "0px", "1px", "2px", "-1px", "0em", ".5em", "0.0px", "calc(1px + 1px)", "var(--s)", "3px", "0", "4px"}
 				n := 2 + r.Intn(3)
 				parts := []string{}
 				if r.Chance(25) {
@@ -506,6 +506,33 @@ var c04Fixed = []c04Case{
 	{prop: "b", value: "1 / *"},
 	{prop: "b", value: "*/ *x"},
 	{prop: "b", value: "foo(1 / *2)"},
+	// b69fe55 K09, 7dece89 K04, 8662e59 K05, f9619c5 K12, 42934f1 K08
+	{prop: "line-height", value: "var(--a,1+2)"},
+	{prop: "grid-template-columns", value: "foo(1E3-0.00)"},
+	{prop: "transition", value: "foo(123456++08)", inline: true},
+	{prop: "width", value: "calc(0%-0px)"},
+	{prop: "width", value: "calc(2*+3px)"},
+	{prop: "rotate", value: "0deg"},
+	{prop: "font-style", value: "oblique 0deg", css2: true},
+	{prop: "transform", value: "rotate(0deg) translate(0px,0px) skewX(0rad)"},
+	{prop: "offset-path", value: "ray(0deg closest-side)"},
+	{prop: "filter", value: "hue-rotate(0deg)"},
+	{prop: "width", value: "hypot(0px,3px)"},
+	{prop: "width", value: "calc(1px + abs(0px))", inline: true},
+	{prop: "color", value: "rgb(255,0%,0)"},
+	{prop: "color", value: "rgb(255 0% 0)"},
+	{prop: "color", value: "rgb(1,2,3,)"},
+	{prop: "color", value: "hsl(50,10,10)"},
+	{prop: "width", value: "1x000"},
+	{prop: "width", value: "1px\\000"},
+	{prop: "width", value: "100PX\\9", css2: true},
+	// shapes the seeded changes of this property aim at
+	{prop: "box-shadow", value: "1px 2px 0 3px red"},
+	{prop: "box-shadow", value: "1px 2px 0px 3px,inset 0 0 0 1px #000"},
+	{prop: "color", value: "hsl(-700,100%,50%)"},
+	{prop: "color", value: "hsl(-400,100%,25%)"},
+	{prop: "color", value: "hsl(800,100%,50%)"},
+	{prop: "color", value: "hsla(-725,50%,25%,1)"},
 }
 
 // c04FixedSheets: whole style sheets of fixed findings; the structure check must pass
